@@ -304,4 +304,7 @@ func TestC14(t *testing.T) {
 	c := c14Src
 	c.Checks = n(2, 30)
 	c.Run(t)
+	d := c14First
+	d.Checks = n(12, 200)
+	d.Run(t)
 }
